@@ -135,7 +135,9 @@ def run(ctx: Ctx) -> None:
     # ---- (b) programs ----
     N = ctx.n(14, 300) * scale
     for i in range(N):
-        p = progen.gen_program(rnd, rnd.randint(1, 3), dict(ext=True))
+        # every extended construct at least once per run: two of them are forced into each program, in turn
+        forced = [progen.EXT_KINDS[(2 * i + k) % len(progen.EXT_KINDS)] for k in range(2)]
+        p = progen.gen_program(rnd, rnd.randint(1, 3), dict(ext=True, force_ext=forced))
         ext_used = any(k.startswith('ext_') for k in p.constructs)
         ctx.case(p.src, ext_used)
         for k in p.constructs:
@@ -191,6 +193,7 @@ KNOWN_SHAPES = [
     ("def ce(a: int, b: int) -> int:\n\tys = [a, b, 3]\n\tzs = [i * x for i, x in enumerate(ys)]\n\treturn zs[0] + zs[1] * 10 + zs[2] * 100\n", [('ce', [(2, 3), (1, 1)], 'int')], 'enumerate-comprehension'),
     ("class K:\n\ta: int\n\tb: int\n\n\tdef __init__(self, n: int) -> None:\n\t\tself.a = n\n\t\tself.a += 1\n\t\tself.b = self.a\n\ndef ci(n: int) -> int:\n\tk = K(n)\n\treturn k.a * 100 + k.b\n", [('ci', [(2,), (5,)], 'int')], 'ctor-statement-order'),
     ("def fl(n: int) -> int:\n\tt = 0\n\tfor x in [1, 2, n]:\n\t\tt += x\n\treturn t\n", [('fl', [(2,), (5,)], 'int')], 'for-over-list-literal'),
+    ("def lu(a: int) -> bool:\n\txs = [a, 1]\n\treturn len(xs) < a - 5\n", [('lu', [(2,), (9,)], 'bool')], 'len-unsigned-compare'),
     # repaired shapes, kept as regression inputs
     ("def cc(n: int) -> int:\n\tdef one(q: int) -> int:\n\t\treturn q + n\n\tdef two(q: int) -> int:\n\t\treturn one(q) * 2\n\tw = (lambda q: one(q) + 1)(n)\n\treturn two(n) + w\n", [('cc', [(2,), (5,)], 'int')], 'closure-calls-closure'),
     ("def rb(a: int) -> int:\n\ttotal = 0\n\tfor i in range(a & 3):\n\t\ttotal += i\n\tys = [a, 1, 3]\n\tys.insert(a & 1, 9)\n\treturn total + ys[0] + ys.pop(a & 1)\n", [('rb', [(200,), (7,)], 'int')], 'range-and-index-grouping'),
